@@ -159,18 +159,20 @@ class Interp:
         today's parameter order. A private function whose parameters were reordered (a refactoring that changes no behaviour)
         is still called correctly; parameters of the same type keep their relative order; a parameter no spec entry fits, or a
         spec entry left over, means the signature really changed - Unsupported (the rule fails closed and says so)."""
-        left = list(spec)
+        left = [tuple(s) for s in spec]
         args = []
         for p in f["params"]:
             ty = self.C.S(p.get("ty")) or ""
             # `name:<part>` matches the parameter's name instead (for parameters that share a type, e.g. a max and a min limit)
-            hit = next((i for i, (pat, _) in enumerate(left)
-                        if (pat[5:] in (p.get("name") or "") if pat.startswith("name:") else pat in ty)), None)
+            hit = next((i for i, s in enumerate(left)
+                        if (s[0][5:] in (p.get("name") or "") if s[0].startswith("name:") else s[0] in ty)), None)
             if hit is None:
                 raise Unsupported("signature of %s changed: no argument for parameter `%s: %s`" % (f["path"], p.get("name"), ty))
             args.append(left.pop(hit)[1])
+        # a third element "optional" marks an argument the analysed behaviour does not depend on: the parameter may have been dropped
+        left = [s for s in left if not (len(s) > 2 and s[2] == "optional")]
         if left:
-            raise Unsupported("signature of %s changed: %d argument(s) have no parameter (%s)" % (f["path"], len(left), [p for p, _ in left]))
+            raise Unsupported("signature of %s changed: %d argument(s) have no parameter (%s)" % (f["path"], len(left), [s[0] for s in left]))
         return self.call_fn(f, args)
 
     # -- patterns
